@@ -38,6 +38,10 @@ chk("C17", "histsim", "exploration",
     "Trusted: the naive window model, the rule for which crops are valid, and the bilevel rule derived from the property statement. Colour-to-luminance is modelled only where the result is unambiguous (opaque gray, transparent, RGB ints). No schedule or fault exists for these objects; this is the workload/oracle/replay half of the technique only.",
     "seeded operation-history simulation vs naive reference model, ddmin replay", "DESIGN.md section 6, section 7 C17")
 
+chk("C11", "chansim", "exploration",
+    "Stub sender (harness reference Aztec encoder: five code tables, latches, P/S and U/S shifts, punctuation pairs, both binary-shift forms with seeded free choices, bit stuffing, RS in the field of the layer count, mode message, bull's-eye, orientation marks, reference grid, spiral) -> module matrix -> <= floor(check words/2) damaged codewords -> (i) real aztec/decoder on the matrix, (ii) rendering at 2..5 px/module, 0..3 quarter turns, quiet zone -> real AztecReader (locator, sampler, decoder). All 36 sizes in every batch, payload tiny / random / filled to capacity; single-codeword sweeps per size. Oracle: decoded text == sent text.",
+    "Trusted: the reference encoder (its layout, field and word order were validated against third-party symbols; every symbol it makes must decode through the real decoder, which the control configuration checks for all 36 sizes on every run). Location is heuristic: the one pose class where clean conforming symbols are sometimes not found (compact symbols at 2 px/module) is a listed known finding; everything else is reported.",
+    "simulated print-and-scan channel with a reference sender, codeword fault injection within the RS budget, real locator/decoder", "DESIGN.md section 5, section 7 C11")
+
 PENDING.update({
- "C11": "claimed by the design (chansim) but its check is not built yet at this commit",
 })
